@@ -76,7 +76,33 @@ def draw_terms(rng, m, g, phi, want_pair=True, units=None):
         vx = pf.constantSourceTerm(pf.CellVariable(m, rng.normal(0, 1, g.dims) * K_ / T_))
         out.append(((Mx, vx), 'pair:generic'))
     order = rng.permutation(len(out))
-    return [out[i] for i in order]
+    out = [out[i] for i in order]
+    if rng.random() < 0.35:
+        # the same terms in other containers: sparse matrices of another format, a dense 2-D array, a Fortran-ordered / strided vector
+        out2 = []
+        for term, kind in out:
+            how = str(rng.choice(['csc', 'coo', 'lil', 'dense', 'keep', 'keep']))
+
+            def conv_m(M_):
+                if how == 'keep':
+                    return M_
+                return sp.csr_array(M_).toarray() if how == 'dense' else getattr(sp.csr_array(M_), 'to' + how)()
+
+            def conv_v(v_):
+                if how == 'keep':
+                    return v_
+                buf = np.zeros(2 * len(v_))
+                buf[::2] = v_
+                return buf[::2]                    # a strided view
+            if isinstance(term, tuple):
+                term = (conv_m(term[0]), conv_v(term[1]))
+            elif getattr(term, 'ndim', None) == 2:
+                term = conv_m(term)
+            else:
+                term = conv_v(term)
+            out2.append((term, kind + ('' if how == 'keep' else '@' + how)))
+        out = out2
+    return out
 
 
 def assemble(phi, terms):
@@ -85,12 +111,12 @@ def assemble(phi, terms):
     b = np.array(bbc, dtype=float, copy=True)
     for t, kind in terms:
         if isinstance(t, tuple):
-            M = M + t[0]
-            b = b + t[1]
+            M = M + sp.csr_array(t[0])
+            b = b + np.asarray(t[1], dtype=float)
         elif t.ndim == 2:
-            M = M + t
+            M = M + sp.csr_array(t)
         else:
-            b = b + t
+            b = b + np.asarray(t, dtype=float)
     return sp.csr_array(M), b
 
 
@@ -136,6 +162,24 @@ def run_system(case, rng, cls):
     vals, _ = gen.cell_field(rng, g.dims, 'random')
     vals = vals * Ku
     phi = pf.CellVariable(m, vals.copy(), BC)
+    layout = str(rng.choice(['interior', 'interior', 'ghosts-F', 'ghosts-T', 'ghosts-strided']))
+    if layout != 'interior':
+        # the constructor form "array including the ghost layer", the array being Fortran-ordered / a transposed view / a strided view
+        full0 = np.zeros(g.full_shape())
+        full0[tuple(slice(1, -1) for _ in range(g.nd))] = vals
+        if layout == 'ghosts-F':
+            arr = np.asfortranarray(full0)
+        elif layout == 'ghosts-T':
+            arr = np.ascontiguousarray(full0.T).T
+        else:
+            big = np.zeros(tuple(2 * n_ for n_ in g.full_shape()))
+            big[tuple(slice(None, None, 2) for _ in range(g.nd))] = full0
+            arr = big[tuple(slice(None, None, 2) for _ in range(g.nd))]
+        pf.CellVariable(m, 0.0, BC).apply_BCs()        # the boundary-condition object has been in use before: its flags are clean
+        phi = pf.CellVariable(m, arr, BC)
+        if rng.random() < 0.5:
+            phi = phi.copy()
+    cov['variable_storage:' + layout] = 1
     edited = None
     if case.get('edit_side') or rng.random() < 0.5:
         # boundary conditions changed on ONE side after the variable exists (values untouched): "the variable's boundary
@@ -187,8 +231,14 @@ def run_system(case, rng, cls):
     terms = draw_terms(rng, m, g, phi, units=units)
     Ms, bs = assemble(phi, terms)
     kinds = sorted(k for _, k in terms)
-    spy = SpySolver()
+    spy = SpySolver(returns=str(rng.choice(['array', 'array', 'list', 'column'])))
+    cov['solver_returns:' + spy.returns] = 1
     term_list = [t for t, _ in terms]            # ONE list object, handed to solvePDE again further down
+    if rng.random() < 0.2:
+        term_list = tuple(term_list)             # any sequence of terms
+        cov['terms_as_tuple'] = 1
+    if any('@' in k_ for _, k_ in terms):
+        cov['terms_in_other_containers'] = 1
     n_terms0 = len(term_list)
     with np.errstate(all='ignore'):
         ret = pf.solvePDE(phi, term_list, externalsolver=spy)
@@ -263,7 +313,9 @@ def run_system(case, rng, cls):
     terms2 = [t for t, _ in terms]
     with np.errstate(all='ignore'):
         pf.solvePDE(phi2, terms2)
-        ref = pf.solveMatrixPDE(m, Ms, bs)
+        fmt_m = str(rng.choice(['csr', 'csc', 'coo', 'lil']))
+        ref = pf.solveMatrixPDE(m, getattr(Ms, 'to' + fmt_m)(), bs)
+        cov['solveMatrixPDE_format:' + fmt_m] = 1
     if cond_plain is not None and not (cond_plain < 1e11):
         cov['direct_clause_skipped_cond'] = 1
     if cond_plain is not None and cond_plain < 1e11:
@@ -302,7 +354,7 @@ def run_system(case, rng, cls):
     cov['systems'] = 1
     cov['terms'] = len(terms)
     for k in set(kinds):
-        cov['termkind:' + k.split('*')[0].split('--')[0]] = 1
+        cov['termkind:' + k.split('@')[0].split('*')[0].split('--')[0]] = 1
     return bad, cov, maxerr, meta, faces, spec, kinds, None
 
 
@@ -439,7 +491,7 @@ def floors(agg, tier):
     for k in ('termkind:pair:transient', 'termkind:M:-diffusion', 'termkind:M:upwind', 'termkind:M:central', 'termkind:v:constsource',
               'termkind:v:tvd', 'termkind:pair:generic', 'default_path_checked', 'side_edit:left', 'side_edit:right', 'side_edit:bottom', 'side_edit:top', 'side_edit:back', 'side_edit:front',
               'side_edit_how:setter', 'side_edit_how:untracked+apply_BCs', 'side_edit_how:replace-object+apply_BCs',
-              'copy_solved_first', 'term_list_reused', 'unit_L:small', 'unit_L:large', 'unit_T:small', 'unit_T:large', 'unit_K:small', 'unit_K:large', 'geo:int', 'geo:jitter'):
+              'copy_solved_first', 'term_list_reused', 'terms_as_tuple', 'terms_in_other_containers', 'variable_storage:ghosts-F', 'variable_storage:ghosts-T', 'variable_storage:ghosts-strided', 'solveMatrixPDE_format:csc', 'solver_returns:list', 'solver_returns:column', 'unit_L:small', 'unit_L:large', 'unit_T:small', 'unit_T:large', 'unit_K:small', 'unit_K:large', 'geo:int', 'geo:jitter'):
         if agg['cov'].get(k, 0) < 5:
             out.append('%s < 5' % k)
     return out
